@@ -21,12 +21,15 @@ def seq_queries(tier):
                             {'OB_SEQ': 1, 'SEQ': '"%s"' % s}))
     return qs
 
+WROUNDS = {1: (0, 40, 48, 56), 2: (0, 32, 36, 40), 3: (0, 5, 8)}
+
 def wipe_queries(tier):
     qs = []
     for (c, v) in CTR_BACKENDS:
         for shift in ((0,) if (v == 0 or tier == 'quick') else (0, 16)):
-            qs.append(ctr_q('wipe', c, v, 'shift%d' % shift, 'cleanup of a %s CTR object whose context holds ARBITRARY bytes (over-approximates every history): every byte of the allocated block incl. alignment slack is zero at free()' % be_name(c, v),
-                            {'OB_WIPE': 1, 'CALLOC_SHIFT': shift}))
+            for wr in (WROUNDS[c] if (tier == 'thorough' or v == 0) else (WROUNDS[c][1], WROUNDS[c][-1])):
+                qs.append(ctr_q('wipe', c, v, 'shift%d:r%d' % (shift, wr), 'cleanup of a %s CTR object whose context holds ARBITRARY bytes (round count %d; over-approximates every history): every byte of the allocated block incl. alignment slack is zero at free()' % (be_name(c, v), wr),
+                                {'OB_WIPE': 1, 'CALLOC_SHIFT': shift, 'WROUNDS': wr}))
     return qs
 
 def allocfail_queries(tier):
@@ -64,7 +67,7 @@ PERR = {1: 'set_key on a null object', 2: 'null key', 3: 'key length out of rang
 
 def par_q(kind, c, name, desc, defs, **kw):
     d = {'CIPHER': c}; d.update(defs)
-    return Q('%s:%s-parallel:%s' % (kind, CTR_CIPH[c], name), 'lcp.c', desc, defs=d, sanitize=True, timeout=kw.pop('timeout', 900), **kw)
+    return Q('%s:%s-parallel:%s' % (kind, CTR_CIPH[c], name), 'lcp.c', desc, defs=d, sanitize=True, timeout=kw.pop('timeout', 1200), mem_gb=24, mem_est=(4 if kind == 'wipe' else 1.5), **kw)
 
 def par_seq_queries(tier):
     qs = []
@@ -77,7 +80,8 @@ def par_seq_queries(tier):
     return qs
 
 def par_wipe_queries(tier):
-    return [par_q('wipe', c, 'arbitrary', 'cleanup of a %s parallel-ECB object whose key schedule holds arbitrary bytes: every byte is zero at free()' % CTR_CIPH[c], {'OB_WIPE': 1}) for c in (1, 2, 3)]
+    return [par_q('wipe', c, 'arbitrary:r%d' % wr, 'cleanup of a %s parallel-ECB object whose key schedule holds arbitrary bytes (round count %d): every byte is zero at free()' % (CTR_CIPH[c], wr), {'OB_WIPE': 1, 'WROUNDS': wr})
+            for c in (1, 2, 3) for wr in WROUNDS[c]]
 
 def par_allocfail_queries(tier):
     qs = []
